@@ -332,6 +332,19 @@ class C19(Harness):
             for tt in ("train", "test"):
                 for r in results.load_predictions(cv_fold=fold, train_or_test=tt):
                     out["recs"].append([fold, tt, [int(i) for i in r.index], [float(v) for v in r.y_true], [float(v) for v in r.y_pred]])
+        # (b) a seeded shuffled single split is the same fold for every strategy and dataset; the task names a strict
+        #     subset of the columns as features (the first column of the frame is not a feature)
+        split = W.load("sktime.series_as_features.model_selection._split")
+        pd = W.pd
+        df2 = pd.DataFrame({"noise": [float(50 - 7 * i) for i in range(6)], "dim_0": [float(1 + i) for i in range(6)], "target": [float(3 * i) for i in range(6)]})
+        results2 = res.RAMResults()
+        est.STATE.update(n=0, K=None, fits=0, predicts=0, log=[])
+        cv2 = split.SingleSplit(test_size=2, random_state=7, shuffle=True)
+        o2 = orch.Orchestrator([tasks.TSRTask(target="target", features=["dim_0"]), tasks.TSRTask(target="target", features=["dim_0"])],
+                               [data.RAMDataset(df2, "dsA"), data.RAMDataset(df2, "dsB")],
+                               [strat.TSRStrategy(est.CountingRegressor(slope=2.0), name="s1"), strat.TSRStrategy(est.CountingRegressor(slope=3.0), name="s2")], cv2, results2)
+        o2.fit_predict(predict_on_train=False, save_fitted_strategies=False)
+        out["shuffled"] = sorted([r.strategy_name, r.dataset_name, [int(i) for i in r.index], [float(v) for v in r.y_true], [float(v) for v in r.y_pred]] for r in results2.load_predictions(cv_fold=0, train_or_test="test"))
         return out
 
     # ------------------------------------------------------------------
@@ -400,6 +413,14 @@ class C19(Harness):
                 tr, te = folds[fold]
                 want_idx = tr if tt == "train" else te
                 P.check("ram-results-read-back", idx == want_idx and yt == [t[i] for i in want_idx] and yp == self._honest((x, t), tr, want_idx))
+            from sklearn.model_selection import train_test_split
+
+            tr2, te2 = train_test_split(list(range(6)), test_size=2, random_state=7, shuffle=True)
+            P.check("stored-record-is-honest", [r[:2] for r in out["shuffled"]] == [["s1", "dsA"], ["s1", "dsB"], ["s2", "dsA"], ["s2", "dsB"]], {"what": "one record per strategy and dataset"})
+            for sname, dname, idx, yt, yp in out["shuffled"]:
+                slope = 2.0 if sname == "s1" else 3.0
+                P.check("stored-record-is-honest", idx == list(te2), {"what": "the seeded fold is the same for every strategy and dataset", "strategy": sname, "dataset": dname, "index": idx, "want": list(te2)})
+                P.check("stored-record-is-honest", yt == [t[i] for i in idx] and yp == [slope * x[i] + len(tr2) + 100 * x[tr2[0]] for i in idx], {"what": "prediction from the task's feature columns", "strategy": sname, "y_pred": yp})
             return
         # resume
         K = inp["K"]
